@@ -1143,6 +1143,20 @@ def _b_sorted(i, a, k):
     return [x for _, x in out]
 
 
+def _b_filter(i, a, k):
+    f, seq = a
+    out = []
+    for x in i.iterate(seq):
+        keep = ops.truthy(i.call(f, [x])) if f is not None else ops.truthy(x)
+        if i.ctx.branch(keep):
+            out.append(x)
+    return out
+
+
+def _b_reversed(i, a, k):
+    return list(reversed(i.iterate(a[0])))
+
+
 def _b_any(i, a, k):
     r = False
     v = a[0]
@@ -1270,7 +1284,7 @@ def builtin(name):
             'min': _mk('min', _b_min), 'max': _mk('max', _b_max), 'sum': _mk('sum', _b_sum),
             'round': _mk('round', _b_round), 'isinstance': _mk('isinstance', _b_isinstance),
             'type': _mk('type', _b_type), 'enumerate': _mk('enumerate', _b_enumerate), 'zip': _mk('zip', _b_zip),
-            'sorted': _mk('sorted', _b_sorted), 'any': _mk('any', _b_any), 'all': _mk('all', _b_all),
+            'sorted': _mk('sorted', _b_sorted), 'filter': _mk('filter', _b_filter), 'reversed': _mk('reversed', _b_reversed), 'any': _mk('any', _b_any), 'all': _mk('all', _b_all),
             'ord': _mk('ord', _b_ord), 'hasattr': _mk('hasattr', _b_hasattr), 'getattr': _mk('getattr', _b_getattr),
             'setattr': _mk('setattr', _b_setattr), 'print': _mk('print', _b_print),
             'forall': _mk('forall', _b_forall), 'exists': _mk('exists', _b_exists),
@@ -1564,6 +1578,10 @@ def _np_sum(i, a, k):
 
 def _np_array_equal(i, a, k):
     x, y = a[0], a[1]
+    if x is None or y is None:
+        return x is None and y is None
+    if isinstance(x, (list, tuple)) and len(x) == 0 and isinstance(y, (list, tuple)) and len(y) == 0:
+        return True
     if isinstance(x, Vec) and isinstance(y, Vec):
         if len(x.e) != len(y.e):
             return False
